@@ -86,6 +86,7 @@ type C09R struct {
 	Buf      int
 	Single   bool `json:",omitempty"` // xz reader with SingleStream set (it probes for a following byte)
 	Once     bool `json:",omitempty"` // the source fails once at the offset and answers normally afterwards (transient failure)
+	Trail    bool `json:",omitempty"` // SingleStream reader on a file with padding and a second stream behind the first: the end of the stream may never be reported
 }
 
 func init() {
@@ -135,6 +136,10 @@ func c09Input(writer string) []byte {
 		return append(append([]byte(nil), baseText[:90]...), randBytes(6, 70)...)
 	case "lzmaW-bufio":
 		return append(randBytes(7, 9000), textBytes(3, 3000)...)
+	case "lzmaW-bytewriter":
+		// long enough for the range coder's carry handling to hold back runs of several bytes
+		// (about one output byte in 250 ends such a run)
+		return append(randBytes(11, 6000), textBytes(5, 3000)...)
 	case "lzma2W-wrap":
 		return randBytes(8, 15000)
 	case "xzW-blockspan":
@@ -502,14 +507,35 @@ func (s *faultSrc) Read(p []byte) (int, error) {
 	return n, nil
 }
 
+// firstStreamEnd returns the offset at which the first stream of a multi-stream file ends.
+func firstStreamEnd(s Stream) int {
+	first := len(s.Data)
+	for k := range s.ValidCuts {
+		if k < first {
+			first = k
+		}
+	}
+	return first
+}
+
 func c09Reader(r *core.Run, s Stream, p C09R) {
 	cs := core.MkCase("C09", "reader", p)
 	src := &faultSrc{data: s.Data, failAt: p.FailAt, withData: p.WithData, once: p.Once}
+	if p.Trail {
+		// the content a SingleStream reader may deliver is that of the first stream
+		first := firstStreamEnd(s)
+		plain, derr := c09Decode("xz", s.Data[:first])
+		if derr != nil {
+			panic("C09: first stream of " + s.Name + " does not decode: " + derr.Error())
+		}
+		s.Plain = plain
+	}
 	var out []byte
 	var err error
 	var proto string
+	var rd io.Reader
+	opened := false
 	pan := core.Guard(func() {
-		var rd io.Reader
 		if p.Single {
 			rd, err = xz.ReaderConfig{DictCap: 4096, SingleStream: true}.NewReader(src)
 		} else {
@@ -518,14 +544,18 @@ func c09Reader(r *core.Run, s Stream, p C09R) {
 		if err != nil {
 			return
 		}
+		opened = true
 		out, err, proto = readAll(rd, p.Buf, 1<<24)
 	})
 	desc := fmt.Sprintf("stream %s: source fails persistently at offset %d of %d (with data: %v), caller buffer %d, SingleStream=%v", s.Name, p.FailAt, len(s.Data), p.WithData, p.Buf, p.Single)
 	site := fmt.Sprintf("%sR source-fail@%s", s.Fmt, newSiteMap(s).at(minInt(p.FailAt, len(s.Data))))
 	if p.Single {
 		site = fmt.Sprintf("xzR(SingleStream) source-fail@%s", newSiteMap(s).at(minInt(p.FailAt, len(s.Data))))
-		if p.FailAt == len(s.Data) {
+		if p.FailAt == len(s.Data) || (p.Trail && p.FailAt == firstStreamEnd(s)) {
 			site = "xzR(SingleStream) source-fail@after-the-stream"
+		}
+		if p.Trail {
+			site += " (data follows)"
 		}
 	}
 	if p.Once {
@@ -553,10 +583,48 @@ func c09Reader(r *core.Run, s Stream, p C09R) {
 	case !errors.Is(err, errInjected):
 		r.Violate(cs, site+" → other-error", desc, errStr(err), "the injected error (or one wrapping it)")
 	}
+	if pan == nil && opened && err != nil && err != io.EOF && proto == "" {
+		// the caller goes on reading after the failure (three more rounds): no call may panic, and
+		// the end of the stream may be reported only when the whole content has been delivered
+		var out2 []byte
+		var err2 error
+		var proto2 string
+		pan2 := core.Guard(func() {
+			for i := 0; i < 3; i++ {
+				var o []byte
+				o, err2, proto2 = readAll(rd, p.Buf, 1<<24)
+				out2 = append(out2, o...)
+				if err2 == io.EOF || err2 == nil {
+					break
+				}
+			}
+		})
+		switch {
+		case pan2 != nil:
+			r.Violate(cs, site+" → panic-on-read-after-error@"+pan2.Site(), desc, pan2.Value+" | "+pan2.Stack, "no panic")
+			cls += "+panic"
+		case proto2 != "":
+			r.Violate(cs, site+" → protocol-after-error", desc, proto2, "an error or the rest of the content")
+		case err2 == io.EOF && p.Trail:
+			r.Violate(cs, site+" → trailing-data-unreported-on-read-after-error", desc, fmt.Sprintf("%d+%d bytes delivered, then io.EOF", len(out), len(out2)), "an error: data follows the first stream")
+			cls += "+eof"
+		case err2 == io.EOF && s.Fmt == "lzma" && p.Once:
+			// the classic reader keeps no sticky error and the range decoder has already shifted its
+			// range when the byte read fails: a retry after a transient failure decodes from a damaged
+			// state. The property speaks of the call that meets the failure (it returned the error);
+			// what a retried classic reader delivers is not constrained by it.
+			cls += "+retry-unconstrained"
+		case err2 == io.EOF && !bytes.Equal(append(append([]byte(nil), out...), out2...), s.Plain):
+			r.Violate(cs, site+" → clean-EOF-on-read-after-error", desc, fmt.Sprintf("%d+%d bytes of %d delivered, then io.EOF", len(out), len(out2), len(s.Plain)), "an error, or the complete content before io.EOF")
+			cls += "+eof"
+		case err2 == io.EOF:
+			cls += "+resumed"
+		}
+	}
 	if pan == nil && !bytes.HasPrefix(s.Plain, out) {
 		r.Violate(cs, site+" → non-prefix-output", desc, fmt.Sprintf("%d bytes, first difference at %d", len(out), firstDiff(out, s.Plain)), "a prefix of the content")
 	}
-	h := core.Hash(s.Name, cls, len(out))
+	h := core.Hash(s.Name, cls, len(out), p.Single, p.Trail)
 	r.Eval(h)
 	r.Nontrivial(h)
 }
@@ -567,7 +635,7 @@ func runC09(r *core.Run) {
 	if thorough(r) {
 		level = 1
 	}
-	r.Rule = "writers (xz multi-block, LZMA2 with Flush, classic LZMA through bufio and through io.ByteWriter) with history Write,Write,[Flush],Close,Close: EVERY index k of the sink's Write/WriteByte calls of the fault-free run x {once, forever} x {0 accepted, half accepted}; plus LZMA2 raw chunks across the ring-buffer wrap, one Write spanning blocks, a Write that fills a 2 MiB chunk exactly; readers (all formats, the xz reader also with SingleStream): EVERY source offset k fails {persistently, once (transient)} x {error alone, error with the last bytes} x caller buffer {1,4096}; deviation bound 2 for sinks: every pair k1<k2 of once-failing sink calls on the short writer histories. non-trivial = distinct (subject, outcome class, call-result history / bytes delivered)"
+	r.Rule = "writers (xz multi-block, LZMA2 with Flush, classic LZMA through bufio and through io.ByteWriter) with history Write,Write,[Flush],Close,Close: EVERY index k of the sink's Write/WriteByte calls of the fault-free run x {once, forever} x {0 accepted, half accepted}; plus LZMA2 raw chunks across the ring-buffer wrap, one Write spanning blocks, a Write that fills a 2 MiB chunk exactly; readers (all formats, the xz reader also with SingleStream, with and without data behind the first stream): EVERY source offset k fails {persistently, once (transient)} x {error alone, error with the last bytes} x caller buffer {1,4096}, and the caller goes on reading after the failure (no panic; end of stream only after the complete content); deviation bound 2 for sinks: every pair k1<k2 of once-failing sink calls on the short writer histories. non-trivial = distinct (subject, outcome class, call-result history / bytes delivered)"
 	type job struct {
 		w    *C09W
 		base *c09Run
@@ -707,6 +775,15 @@ func runC09(r *core.Run) {
 					}
 					if s.Fmt == "xz" && s.ValidCuts == nil {
 						jobs = append(jobs, job{s: s, rd: &C09R{Stream: s.Name, Level: level, FailAt: k, WithData: wd, Buf: b, Single: true}})
+						if !wd {
+							jobs = append(jobs, job{s: s, rd: &C09R{Stream: s.Name, Level: level, FailAt: k, Buf: b, Single: true, Once: true}})
+						}
+					}
+					if s.Fmt == "xz" && s.ValidCuts != nil && k <= firstStreamEnd(*s) {
+						jobs = append(jobs, job{s: s, rd: &C09R{Stream: s.Name, Level: level, FailAt: k, WithData: wd, Buf: b, Single: true, Trail: true}})
+						if !wd {
+							jobs = append(jobs, job{s: s, rd: &C09R{Stream: s.Name, Level: level, FailAt: k, Buf: b, Single: true, Trail: true, Once: true}})
+						}
 					}
 				}
 			}
